@@ -537,10 +537,18 @@ class ApplyTemplates(Transformer_InPlace):
         self.replacer = _ReplaceSymbols()
         self.created_templates = set()
 
+    @staticmethod
+    def _arg_name(a):
+        # An anonymous literal is filtered out of the tree, the terminal of the same name (X: "x") is kept.
+        # They compare equal, but they must not share one instance of the template.
+        if isinstance(a, Terminal) and a.filter_out and not a.name.startswith('_'):
+            return '"%s"' % a.name
+        return a.name
+
     def template_usage(self, c):
         name = c[0].name
         args = c[1:]
-        result_name = "%s{%s}" % (name, ",".join(a.name for a in args))
+        result_name = "%s{%s}" % (name, ",".join(self._arg_name(a) for a in args))
         if result_name not in self.created_templates:
             self.created_templates.add(result_name)
             (_n, params, tree, options) ,= (t for t in self.rule_defs if t[0] == name)
